@@ -243,7 +243,7 @@ fn seq<F: CKind>(args: &Args) {
             } else if c < 108 {
                 if rng.chance(1, 2) {
                     let v = rng.below(s.n as usize) as u32;
-                    let nm = ["", "a", "b", "x0", "long name"][rng.below(5)];
+                    let nm = ["", "a", "b", "x0", "long_name"][rng.below(5)];
                     s.set_var_name(v, nm);
                 }
                 s.names_obs();
